@@ -29,7 +29,7 @@ type UserSpec struct {
 	Elem    string   `json:"elem"`              // element type for generic instantiations ("int", "string", "float64", "lib.Base", "[]int")
 }
 
-var stmtKinds = []string{"map", "sum", "box", "apply", "pair", "iface", "ptriface", "embiface", "bound", "thunk", "mexpr", "seq", "chain", "dep", "nested", "recur", "boxmethodval"}
+var stmtKinds = []string{"outer", "mid", "inner", "outerbox", "midbox", "map", "sum", "box", "apply", "pair", "iface", "ptriface", "embiface", "bound", "thunk", "mexpr", "seq", "chain", "dep", "nested", "recur", "boxmethodval"}
 
 const baseSrc = `package base
 
@@ -67,6 +67,17 @@ func Sum[T Number](xs []T) T {
 func Id[T any](x T) T { return x }
 
 func Twice[T any](x T, f func(T) T) T { return f(Id(f(x))) }
+
+// a chain of generic functions: users may reference only the outer ones
+func Outer[T any](v T) T { return Mid(v) }
+
+func Mid[T any](v T) T { return Inner(v) }
+
+func Inner[T any](v T) T { return v }
+
+func OuterBox[T any](v T) Box[T] { return MidBox(Box[T]{V: v}) }
+
+func MidBox[T any](b Box[T]) Box[T] { return Id(b) }
 
 type Pair[A, B any] struct {
 	L A
@@ -168,6 +179,16 @@ func (ps *ProgSpec) sources() map[string]string {
 		for k, s := range u.Stmts {
 			w("func F%d() {\n", k)
 			switch s {
+			case "outer":
+				w("\tSink = append(Sink, lib.Outer(%s))\n", z)
+			case "mid":
+				w("\tSink = append(Sink, lib.Mid(%s))\n", z)
+			case "inner":
+				w("\tSink = append(Sink, lib.Inner(%s))\n", z)
+			case "outerbox":
+				w("\tSink = append(Sink, lib.OuterBox(%s))\n", z)
+			case "midbox":
+				w("\tSink = append(Sink, lib.MidBox(lib.Box[%s]{V: %s}))\n", E, z)
 			case "map":
 				w("\txs := []%s{%s}\n\tys := lib.Map(xs, func(x %s) %s { return lib.Id(x) })\n\tSink = append(Sink, ys)\n", E, z, E, E)
 			case "sum":
